@@ -19,10 +19,11 @@ static char dbdir[1024];
 static int any_iter(void) { int j; for (j = 1; j <= MAXI; j++) if (its[j]) return 1; return 0; }
 
 static int force_small = 0;
+static int g_profile = 0;
 static size_t pick_len(int profile) {
   uint32_t r = d_rn(100);
   if (force_small) return 5 + d_rn(100);
-  if (profile == 5 || profile == 7) return 5 + d_rn(60);                       /* auto: tiny values, flush driven */
+  if (profile == 5 || profile == 7 || profile == 8) return 5 + d_rn(60);                       /* auto: tiny values, flush driven */
   if (profile == 6) return 150000 + d_rn(550000);              /* autobig: every output file closes after 2-6 entries */
   if (profile == 2) { /* bigval */
     if (r < 30) return 200000 + d_rn(400000);
@@ -136,6 +137,7 @@ static void quiesce(void) {
 static void do_flush(void) { int rc = ldb_test_compact_memtable(db); EV("flush", "\"rc\":%d", rc); }
 static void do_compact(void) {
   int level = d_rn(6), b = d_rn(NK + 4), e = d_rn(NK + 4); ldb_slice_t bk, ek;
+  if (g_profile == 8) { level = d_rn(3) == 0 ? 1 : 0; b = d_rn(NK); e = b + d_rn(5); if (e >= NK) e = NK + 1; if (d_rn(4) == 0) b = NK + 1; }
   if (b < NK && e < NK && b > e) { int t = b; b = e; e = t; }
   if (b < NK) bk = d_key(b);
   if (e < NK) ek = d_key(e);
@@ -179,12 +181,73 @@ static void do_immhold(int profile) {
   lcdb_verif_hold(20, 0);
 }
 
+/* ---- scripted mode: executes an operation list produced by the specification (LsmGen.tla) ---- */
+static void get_one(int k, int s) {
+  ldb_readopt_t ro = *ldb_readopt_default; ldb_slice_t key = d_key(k), out; int rc;
+  ro.snapshot = s ? snaps[s] : NULL; ro.verify_checksums = 1;
+  rc = ldb_get(db, &key, &out, &ro);
+  if (rc == 0) { EV("get", "\"k\":%d,\"snap\":%d,\"r\":%d,\"rc\":0", k, s, d_valid(out.data, out.size)); ldb_free(out.data); }
+  else if (rc == LDB_NOTFOUND) EV("get", "\"k\":%d,\"snap\":%d,\"r\":0,\"rc\":%d", k, s, rc);
+  else EV("get", "\"k\":%d,\"snap\":%d,\"r\":-9,\"rc\":%d", k, s, rc);
+}
+static void scan_one(int s, int dir) {
+  ldb_readopt_t ro = *ldb_iteropt_default; ldb_iter_t *it; int n = 0;
+  ro.snapshot = s ? snaps[s] : NULL; ro.verify_checksums = 1;
+  it = ldb_iterator(db, &ro);
+  lcdb_verif_begin("scan");
+  lcdb_verif_add("\"snap\":%d,\"dir\":\"%s\",\"items\":[", s, dir ? "bwd" : "fwd");
+  for (dir ? ldb_iter_last(it) : ldb_iter_first(it); ldb_iter_valid(it); dir ? ldb_iter_prev(it) : ldb_iter_next(it)) {
+    ldb_slice_t kk = ldb_iter_key(it), vv = ldb_iter_value(it);
+    lcdb_verif_add("%s[%d,%d]", n++ ? "," : "", d_rankof(kk), d_valid(vv.data, vv.size));
+  }
+  lcdb_verif_add("],\"status\":%d", ldb_iter_status(it));
+  lcdb_verif_end();
+  ldb_iter_destroy(it);
+}
+static int run_script(const char *path) {
+  FILE *f = fopen(path, "r"); char line[256], op[32]; int a, b, c2, n, k, s;
+  if (f == NULL) return 2;
+  while (fgets(line, sizeof(line), f) != NULL) {
+    a = b = c2 = -1; op[0] = 0;
+    n = sscanf(line, "%31s %d %d %d", op, &a, &b, &c2);
+    if (n < 1 || op[0] == '#') continue;
+    if (!strcmp(op, "put")) {
+      int id = nextid++, rc; size_t len = b > 0 ? (size_t)b : 20; char *v = d_mkval(id, len); ldb_slice_t key = d_key(a), val = ldb_slice(v, len < 5 ? 5 : len);
+      EV("call_write", "\"ops\":[[%d,%d]]", a, id);
+      rc = ldb_put(db, &key, &val, NULL);
+      EV("put", "\"k\":%d,\"v\":%d,\"len\":%lu,\"sync\":0,\"rc\":%d", a, id, (unsigned long)val.size, rc); free(v);
+    } else if (!strcmp(op, "del")) {
+      ldb_slice_t key = d_key(a); int rc;
+      EV("call_write", "\"ops\":[[%d,0]]", a);
+      rc = ldb_del(db, &key, NULL); EV("del", "\"k\":%d,\"rc\":%d", a, rc);
+    } else if (!strcmp(op, "flush")) { do_flush(); quiesce(); }
+    else if (!strcmp(op, "reopen")) { if (do_reopen() != 0) { fclose(f); return 4; } }
+    else if (!strcmp(op, "compact")) {
+      ldb_slice_t bk, ek;
+      if (b >= 0) bk = d_key(b);
+      if (c2 >= 0) ek = d_key(c2);
+      ldb_test_compact_range(db, a, b >= 0 ? &bk : NULL, c2 >= 0 ? &ek : NULL);
+      EV("compact", "\"level\":%d,\"lo\":%d,\"hi\":%d", a, b, c2);
+      quiesce();
+    } else if (!strcmp(op, "compactall")) { do_compact_all(); quiesce(); }
+    else if (!strcmp(op, "snap")) { if (a >= 1 && a <= MAXS && !snaps[a]) { snaps[a] = ldb_snapshot(db); EV("snap", "\"id\":%d", a); } }
+    else if (!strcmp(op, "rel")) { if (a >= 1 && a <= MAXS && snaps[a]) { ldb_release(db, snaps[a]); snaps[a] = NULL; EV("rel", "\"id\":%d", a); } }
+    else if (!strcmp(op, "getall")) {
+      for (s = 0; s <= MAXS; s++) { if (s && !snaps[s]) continue; for (k = 0; k < NK; k++) get_one(k, s); }
+    } else if (!strcmp(op, "scan")) { for (s = 0; s <= MAXS; s++) { if (s && !snaps[s]) continue; scan_one(s, 0); scan_one(s, 1); } }
+    else if (!strcmp(op, "quiesce")) quiesce();
+  }
+  fclose(f);
+  return 0;
+}
+
 int main(int argc, char **argv) {
   int seed, steps, i, profile = 0, rc; uint32_t bits; char keep[1100];
   if (argc < 5) { fprintf(stderr, "usage: seq seed steps trace dbdir [profile] [optbits]\n"); return 2; }
   seed = atoi(argv[1]); steps = atoi(argv[2]);
   snprintf(dbdir, sizeof(dbdir), "%s", argv[4]);
-  if (argc > 5) { const char *p = argv[5]; profile = !strcmp(p, "deep") ? 1 : !strcmp(p, "bigval") ? 2 : !strcmp(p, "iter") ? 3 : !strcmp(p, "snap") ? 4 : !strcmp(p, "auto") ? 5 : !strcmp(p, "autobig") ? 6 : !strcmp(p, "seek") ? 7 : 0; }
+  if (argc > 5) { const char *p = argv[5]; profile = !strcmp(p, "deep") ? 1 : !strcmp(p, "bigval") ? 2 : !strcmp(p, "iter") ? 3 : !strcmp(p, "snap") ? 4 : !strcmp(p, "auto") ? 5 : !strcmp(p, "autobig") ? 6 : !strcmp(p, "seek") ? 7 : !strcmp(p, "l0chain") ? 8 : 0; }
+  g_profile = profile;
   d_seed((uint64_t)seed * 1000003ULL + (uint64_t)profile);
   d_init_keys();
   bits = (argc > 6 && argv[6][0] != '-') ? (uint32_t)strtoul(argv[6], NULL, 0) : d_rnd();
@@ -200,10 +263,15 @@ int main(int argc, char **argv) {
   rc = ldb_open(dbdir, &O.o, &db);
   EV("open", "\"rc\":%d", rc);
   if (rc != 0) { lcdb_verif_close(); return 3; }
+  if (getenv("VERIF_SCRIPT") != NULL) {
+    rc = run_script(getenv("VERIF_SCRIPT"));
+    if (rc != 0) { lcdb_verif_close(); return rc; }
+    steps = 0;
+  }
   for (i = 0; i < steps; i++) {
     uint32_t op = d_rn(1000);
     /* weights per profile: put del batch get snap rel iter_new iter_free it scan flush compact compact_all reopen immhold */
-    static const int W[8][15] = {
+    static const int W[9][15] = {
       {260, 60, 50, 170, 40, 30, 40, 20, 190, 20, 35, 50, 6, 8, 6},
       {330, 80, 60, 120, 30, 25, 20, 15, 60, 15, 120, 100, 5, 10, 5},
       {300, 40, 60, 160, 60, 30, 30, 20, 120, 20, 50, 80, 8, 8, 8},
@@ -214,7 +282,10 @@ int main(int argc, char **argv) {
       /* autobig: large values, many versions pinned by snapshots, automatic compactions only */
       {420, 30, 0, 200, 120, 60, 20, 10, 100, 20, 10, 0, 0, 6, 4},
       /* seek: read-heavy over a multi-level layout, so that seek-triggered compactions (allowed_seeks) fire */
-      {60, 10, 10, 760, 10, 10, 10, 5, 40, 10, 30, 30, 0, 5, 10}};
+      {60, 10, 10, 760, 10, 10, 10, 5, 40, 10, 30, 30, 0, 5, 10},
+      /* l0chain: every reopen turns the log into a level-0 table; ranged manual compactions over chains of
+         partially overlapping level-0 files */
+      {330, 60, 40, 170, 30, 20, 10, 10, 30, 10, 20, 150, 4, 110, 6}};
     int c = 0, a = 0;
     for (c = 0; c < 15; c++) { a += W[profile][c]; if ((int)op < a) break; }
     switch (c) {
